@@ -263,9 +263,9 @@ theorem DropInv.viewSame {w w' : World} {p : Pid} {rest : List HoldRef} (h : Dro
     DropInv w' p rest where
   size := by rw [hs.size]; exact h.size
   ok pl v hv := by rw [hs.size]; exact h.ok pl v (by rw [← hs.view]; exact hv)
-  linkOther pl v hv q hq := by rw [hs.held q]; exact h.linkOther pl v (by rw [← hs.view]; exact hv) q hq
+  linkOther pl v hv q hq := (hs.held q pl).trans (h.linkOther pl v (by rw [← hs.view]; exact hv) q hq)
   pending pl v hv hk := h.pending pl v (by rw [← hs.view]; exact hv) hk
-  detached pl := by rw [hs.held p]; exact h.detached pl
+  detached pl := fun hm => h.detached pl ((hs.held p pl).1 hm)
 
 theorem DropInv.close {w : World} {p : Pid} (h : DropInv w p []) : PoolInv w := by
   refine ⟨h.size, fun pl v hv => ⟨h.ok pl v hv, fun q => ?_⟩⟩
@@ -417,5 +417,220 @@ theorem PoolInv.finishProc (w : World) (p : Pid) (v : Int) (st : Bool) (hi : Poo
   split
   · exact PoolInv.dropResources _ _ (hi.same (cancelAwaiteds_same _ _))
   · exact (PoolInv.dropResources _ _ hi).same (cancelAwaiteds_same _ _)
+
+/-! ### commands that touch the held lists only through resources -/
+
+theorem pool_mem_modProc_res (w : World) (r : Nat) (p q : Pid) (pl : Nat) :
+    HoldRef.pool pl ∈ ((w.modProc p fun y => { y with held := .res r :: y.held }).proc q).held ↔
+      HoldRef.pool pl ∈ (w.proc q).held := by
+  rw [proc_modProc]
+  split
+  · rename_i hq; rw [hq.1]; simp
+  · exact Iff.rfl
+
+@[simp] theorem pool_mem_grab (w : World) (r : Nat) (p q : Pid) (pl : Nat) :
+    HoldRef.pool pl ∈ ((grab w r p).proc q).held ↔ HoldRef.pool pl ∈ (w.proc q).held := by
+  unfold grab
+  split
+  · dsimp only
+    rw [pool_mem_modProc_res]
+    split <;> simp
+  · exact Iff.rfl
+
+@[simp] theorem pool_mem_removeHeld_res (w : World) (r : Nat) (p q : Pid) (pl : Nat) :
+    HoldRef.pool pl ∈ ((removeHeld w p (.res r)).1.proc q).held ↔ HoldRef.pool pl ∈ (w.proc q).held := by
+  rw [removeHeld_proc]
+  split
+  · simp
+  · exact Iff.rfl
+
+theorem acquireStep_poolHeld (w : World) (p : Pid) (r : Nat) (q : Pid) (pl : Nat) :
+    HoldRef.pool pl ∈ ((acquireStep w p r).1.proc q).held ↔ HoldRef.pool pl ∈ (w.proc q).held := by
+  unfold acquireStep
+  (repeat' split) <;> simp
+
+theorem resCmd_viewSame (w : World) (p : Pid) (c : Cmd) (hc : cmdMask c = mResHeld) : ViewSame w (execCmd w p c).1 := by
+  have hf := execCmd_fp w p c
+  rw [hc] at hf
+  refine ⟨hf.2.2.2.2.2.2.2.1, poolView_of_fp hf rfl, ?_⟩
+  intro q pl
+  cases c <;> simp [cmdMask, recMask] at hc
+  case acquire r => simp only [execCmd]; exact acquireStep_poolHeld _ _ _ _ _
+  case preempt r =>
+    simp only [execCmd]
+    (repeat' split) <;> simp [acquireStep_poolHeld]
+  case release r =>
+    simp only [execCmd]
+    (repeat' split) <;> simp
+  case recStart kind idx => split at hc <;> simp at hc
+  case recStop kind idx => split at hc <;> simp at hc
+
+theorem acquireFrame_viewSame (w : World) (p : Pid) (r : Nat) (sig : Int) :
+    ViewSame w (resumeFrame w p (.acquire r) sig).1 := by
+  have hf := resumeFrame_fp w p (.acquire r) sig
+  refine ⟨hf.2.2.2.2.2.2.2.1, poolView_of_fp hf rfl, ?_⟩
+  intro q pl
+  simp only [resumeFrame]
+  (repeat' split) <;> simp [acquireStep_poolHeld]
+
+/-! ### recording on / off -/
+
+theorem setRecording_viewSame (w : World) (kind idx : Nat) (on : Bool) : ViewSame w (setRecording w kind idx on) := by
+  have hf := setRecording_fp w kind idx on
+  have hheld : ∀ q pl, HoldRef.pool pl ∈ ((setRecording w kind idx on).proc q).held ↔ HoldRef.pool pl ∈ (w.proc q).held := by
+    intro q pl
+    rw [hf.2.2.2.2.2.2.2.2 (by unfold recMask; split <;> rfl) q]
+  by_cases hk : kind = 1
+  · subst hk
+    refine ⟨hf.2.2.2.2.2.2.2.1, ?_, hheld⟩
+    have hm : ∀ (w : World) pl, poolView { w with pools := w.pools.modify idx fun x => { x with recording := on } } pl =
+        poolView w pl := by
+      intro w pl
+      unfold poolView
+      show ((w.pools.modify idx _)[pl]?).map Pool.view = _
+      rw [poolView_modify]
+      split
+      · rename_i e; subst e; cases w.pools[pl]? <;> rfl
+      · rfl
+    intro pl
+    unfold setRecording
+    dsimp only
+    split
+    · show poolView (recordPool { w with pools := w.pools.modify idx fun x => { x with recording := on } } idx) pl = _
+      rw [(recordPool_viewSame _ idx).view, hm]
+    · show poolView { (recordPool w idx) with pools := (recordPool w idx).pools.modify idx fun x => { x with recording := on } } pl = _
+      rw [hm, (recordPool_viewSame _ idx).view]
+  · refine ⟨hf.2.2.2.2.2.2.2.1, poolView_of_fp hf ?_, hheld⟩
+    unfold recMask
+    split <;> first | rfl | contradiction
+
+/-! ### `priority_set` of a holder -/
+
+theorem foldl_preserves_mem {α : Type} {P : World → Prop} (f : World → α → World) (l : List α)
+    (h : ∀ w a, a ∈ l → P w → P (f w a)) (w : World) (hw : P w) : P (l.foldl f w) := by
+  induction l generalizing w with
+  | nil => exact hw
+  | cons a l ih =>
+    exact ih (fun w b hb => h w b (List.mem_cons_of_mem _ hb)) (f w a) (h w a List.mem_cons_self hw)
+
+theorem PoolInv.prioSet (w : World) (p q : Pid) (v : Int) (hi : PoolInv w) : PoolInv (execCmd w p (.prioSet q v)).1 := by
+  simp only [execCmd]
+  split
+  · exact hi
+  · dsimp only
+    -- the first fold (timers and waiting lists) touches neither pools nor held lists
+    have h1 : ∀ w0 : World, PoolInv w0 → ∀ l : List Await, PoolInv (l.foldl (fun w a =>
+        match a with
+        | .time h =>
+          match reprioritize w.ev h v with
+          | .ok ev' => { w with ev := ev' }
+          | .error f => w.fail s!"priority_set: timer event not scheduled: {f}"
+        | .guard g =>
+          match w.guards[g]? with
+          | some gd =>
+            if guardEnqueued w g q then
+              match HashHeap.lookup gd.q (q + 1) with
+              | .ok t =>
+                match HashHeap.reprioritize guard_queue_check gd.q (q + 1) t.d v with
+                | .ok q' => setGuardQ w g q'
+                | .error f => w.fail s!"priority_set guard: {f}"
+              | .error f => w.fail s!"priority_set guard lookup: {f}"
+            else w
+          | none => w
+        | _ => w) w0) ∧ ∀ q', ((l.foldl (fun w a =>
+        match a with
+        | .time h =>
+          match reprioritize w.ev h v with
+          | .ok ev' => { w with ev := ev' }
+          | .error f => w.fail s!"priority_set: timer event not scheduled: {f}"
+        | .guard g =>
+          match w.guards[g]? with
+          | some gd =>
+            if guardEnqueued w g q then
+              match HashHeap.lookup gd.q (q + 1) with
+              | .ok t =>
+                match HashHeap.reprioritize guard_queue_check gd.q (q + 1) t.d v with
+                | .ok q' => setGuardQ w g q'
+                | .error f => w.fail s!"priority_set guard: {f}"
+              | .error f => w.fail s!"priority_set guard lookup: {f}"
+            else w
+          | none => w
+        | _ => w) w0).proc q').held = (w0.proc q').held := by
+      intro w0 hi0 l
+      induction l generalizing w0 with
+      | nil => exact ⟨hi0, fun _ => rfl⟩
+      | cons a l ih =>
+        rw [List.foldl_cons]
+        have hstep : ViewSame w0 (match a with
+            | .time h =>
+              match reprioritize w0.ev h v with
+              | .ok ev' => { w0 with ev := ev' }
+              | .error f => w0.fail s!"priority_set: timer event not scheduled: {f}"
+            | .guard g =>
+              match w0.guards[g]? with
+              | some gd =>
+                if guardEnqueued w0 g q then
+                  match HashHeap.lookup gd.q (q + 1) with
+                  | .ok t =>
+                    match HashHeap.reprioritize guard_queue_check gd.q (q + 1) t.d v with
+                    | .ok q' => setGuardQ w0 g q'
+                    | .error f => w0.fail s!"priority_set guard: {f}"
+                  | .error f => w0.fail s!"priority_set guard lookup: {f}"
+                else w0
+              | none => w0
+            | _ => w0) ∧ ∀ q', ((match a with
+            | .time h =>
+              match reprioritize w0.ev h v with
+              | .ok ev' => { w0 with ev := ev' }
+              | .error f => w0.fail s!"priority_set: timer event not scheduled: {f}"
+            | .guard g =>
+              match w0.guards[g]? with
+              | some gd =>
+                if guardEnqueued w0 g q then
+                  match HashHeap.lookup gd.q (q + 1) with
+                  | .ok t =>
+                    match HashHeap.reprioritize guard_queue_check gd.q (q + 1) t.d v with
+                    | .ok q' => setGuardQ w0 g q'
+                    | .error f => w0.fail s!"priority_set guard: {f}"
+                  | .error f => w0.fail s!"priority_set guard lookup: {f}"
+                else w0
+              | none => w0
+            | _ => w0).proc q').held = (w0.proc q').held := by
+          constructor
+          · refine ⟨?_, ?_, ?_⟩
+            · (repeat' split) <;> simp
+            · intro pl; unfold poolView; (repeat' split) <;> simp
+            · intro q' pl; (repeat' split) <;> simp
+          · intro q'; (repeat' split) <;> simp
+        obtain ⟨a1, a2⟩ := ih _ (PoolInv.of_viewSame hstep.1 hi0)
+        exact ⟨a1, fun q' => (a2 q').trans (hstep.2 q')⟩
+    have hw1 : PoolInv (w.modProc q fun y => { y with prio := v }) := hi.same (modProc_same _ _ _ (fun _ => rfl))
+    obtain ⟨hi2, hheld2⟩ := h1 _ hw1 ((w.modProc q fun y => { y with prio := v }).proc q).awaits
+    generalize (List.foldl _ (w.modProc q fun y => { y with prio := v }) _) = w2 at hi2 hheld2 ⊢
+    -- the second fold: one reprioritize per pool held
+    refine (foldl_preserves_mem (P := fun w' => PoolInv w' ∧ ∀ q', (w'.proc q').held = (w2.proc q').held) _ _ ?_ w2
+      ⟨hi2, fun _ => rfl⟩).1
+    intro w' a ha ⟨hi', hh'⟩
+    cases a with
+    | res r => exact ⟨hi', hh'⟩
+    | pool pl =>
+      dsimp only
+      split
+      · rename_i x hx
+        have hv := poolView_of_get hx
+        have vok := (hi'.2 pl _ hv).1
+        have hok : HoldersOK w'.procs.size x.holders := vok.toHoldersOK
+        have hk : q + 1 ∈ keys (abs x.holders) := ((hi'.2 pl _ hv).2 q).1 (by rw [hh' q]; exact ha)
+        split
+        · rename_i h' hr
+          obtain ⟨ok', hsum', hkeys', _⟩ := reprio_holders hok hk hr
+          refine ⟨?_, fun q' => hh' q'⟩
+          have st : PSt w' { w' with pools := w'.pools.set! pl { x with holders := h' } } pl ⟨x.cap, x.inUse, h'⟩ :=
+            ⟨setHolders_upd hx h', ok', fun q' => by rw [hkeys']; exact (hi'.2 pl _ hv).2 q'⟩
+          refine st.close hi' ?_ vok.inCap
+          show x.inUse = amounts (abs h')
+          rw [hsum']; exact vok.sum
+        · exact ⟨hi'.same (fail_same _ _), fun q' => by rw [← hh' q']; simp⟩
+      · exact ⟨hi', hh'⟩
 
 end CimbaModel.Sim
